@@ -42,7 +42,7 @@ contract(f"{Q}._add_sub",
          cases=[{"_name": "add", "op": "OpAdd", "_add_ensures": _ens("+")},
                 {"_name": "sub", "op": "OpSub", "_add_ensures": _ens("-")}],
          allow_exc=("UndefinedUnitError", "OffsetUnitCalculusError", "KeyError", "TypeError", "ArithmeticError"),
-         modifies=_mods + ["self._dimensionality", "other._dimensionality"],
+         modifies=_mods + ["self._dimensionality", "other._dimensionality", "self._dimensionality_units", "other._dimensionality_units"],
          theories=("lin", "fac", "facdiff"),
          props=["C03"])
 
